@@ -141,7 +141,8 @@ PATTERNS = ['*', '?', 'a', 'A', 'a*', '*.o', '[ab]', '[!a]', '/v/d/a', '/v/d/*',
 NAMES = ['a', 'A', 'ab', 'b.o', '*', '?a', '[ab]', 'a b', 'c', 'x\ny']
 SETS = [[0, 1, 2], [3, 4, 5], [6, 7, 8], [0, 9, 4], [0, 1, 2, 3, 4, 5, 6, 7, 8, 9]]
 # placement of entry j: (trash dir, original dir)
-PLACES = [('/v/.Trash-1000', '/v/d'), ('/v/.Trash/1000', '/v/e'), ('/h/.local/share/Trash', '/h/w'), ('/v/.Trash-1000', '/v/e')]
+PLACES = [('/v/.Trash-1000', '/v/d'), ('/v/.Trash/1000', '/v/e'), ('/h/.local/share/Trash', '/h/w'), ('/v/.Trash-1000', '/v/e'),
+          ('/w/.Trash-1000', '/w/d')]  # (/w: a second volume that shares its device string with /v)
 
 
 def _case(pat, eset, shift, dupe):
@@ -150,18 +151,18 @@ def _case(pat, eset, shift, dupe):
         nodes = [W.d('/h'), W.d('/v/.Trash', 0o1777), W.f('/v/keep', 'KEEP', 0o644, 800)] + K.sentinels('/v/out')
         entries = []
         for j, ni in enumerate(SETS[eset]):
-            td, od = PLACES[(j + shift) % 4]
+            td, od = PLACES[(j + shift) % 5]
             loc = od + '/' + NAMES[ni]
-            pv = loc if td.startswith('/h') else loc[len('/v/'):]
+            pv = loc if td.startswith('/h') else loc[len('/v/'):]  # (/v/ and /w/ have the same length)
             nodes += K.trashed(td, 'e%d' % j, K.quote(pv), '2020-01-01T00:00:00', K.KINDS[(j + shift) % 6], 2000 + 20 * j)
             entries.append((td, 'e%d' % j, loc))
             if dupe and j == 0:
-                td2, od2 = PLACES[(j + shift + 1) % 4]
+                td2, od2 = PLACES[(j + shift + 1) % 5]
                 loc2 = od2 + '/' + NAMES[ni]
                 pv2 = loc2 if td2.startswith('/h') else loc2[len('/v/'):]
                 nodes += K.trashed(td2, 'dup', K.quote(pv2), '2020-01-02T00:00:00', 'file', 2500)
                 entries.append((td2, 'dup', loc2))
-        world = W.W(mounts=K.MOUNTS, cwd='/v', nodes=nodes)
+        world = W.W(mounts=K.MOUNTS + ['/w'], cwd='/v', nodes=nodes)
         p = PATTERNS[pat]
         steps = [{'snap': '/'}, C('rm', [p], scen.env(), cwd='/v'), {'snap': '/'}]
         m, res = scen.run_model(world, steps)
@@ -172,7 +173,7 @@ def _case(pat, eset, shift, dupe):
         for td, name, loc in entries:
             # independent reading of the written info
             ok, pth, _ = scen.spec_parse_info(scen.sub(before, td + '/info/' + name + '.trashinfo')[2])
-            full = pth if pth.startswith('/') else '/v/' + pth
+            full = pth if pth.startswith('/') else td[:3] + pth
             if full != loc:
                 return rt.fail('C12:harness', 'reference decoding disagrees %r %r' % (full, loc))
             subject = full if p.startswith('/') else full.rsplit('/', 1)[1]
@@ -197,10 +198,10 @@ def _case(pat, eset, shift, dupe):
 def w_main(pat: int, eset: int, shift: int, dupe: bool) -> str:
     """
     pre: PARTITION is None or eset == PARTITION
-    pre: 0 <= pat < 26 and 0 <= eset < 5 and 0 <= shift < 4
+    pre: 0 <= pat < 26 and 0 <= eset < 5 and 0 <= shift < 5
     post: _ == ''
     """
-    return _case(rt.sel(pat, 26), rt.sel(eset, 5), rt.sel(shift, 4), rt.selb(dupe))
+    return _case(rt.sel(pat, 26), rt.sel(eset, 5), rt.sel(shift, 5), rt.selb(dupe))
 
 
 def obligations(tier):
@@ -210,5 +211,5 @@ def obligations(tier):
            bounds='pattern: any str 1<=len<=3; location: any absolute str len<=5'),
         CH('W_pattern_x_names', MOD, 'w_main', timeout=900, partitions=list(range(5)), engine='W', regime='selector',
            encodes=K.RM_FUNCS, stubs=K.STUBS,
-           bounds='26 patterns x 5 name sets (10 names) x 4 placements over 3 trash dirs / 3 original dirs x duplicate base name'),
+           bounds='26 patterns x 5 name sets (10 names) x 5 placements over 4 trash dirs on 3 volumes (two of them with the same device string) x duplicate base name'),
     ]
